@@ -2,17 +2,19 @@
    ON THIS RUN (Gen/SrcPure.v) is the documented table on every error value
    (nil, an error that is none of the package's constants, each constant), and
    on the handler error classes of the server model it is [herr_code].
-   Only statements, closed by [exact]. *)
+   Only statements, closed by [exact].
+   [call_with src_pure no_fns] runs a function of the translated program with no
+   external functions under it. *)
 From Coq Require Import List NArith String.
 Import ListNotations.
 From Modbus Require Import Base.Bytes Model.GoLite Gen.SrcPure Model.Wire Model.Client Model.Server.
-From Modbus Require Import Proofs.SrcMiscP.
+From Modbus Require Import Proofs.GoLiteLinkP Proofs.SrcMiscP.
 Open Scope string_scope.
 Open Scope N_scope.
 
 Theorem c03s_error_map : forall fuel v, In v all_error_values ->
-  call src_pure fuel "mapErrorToExceptionCode" [VN v] = GoLite.Ok [VN (err_to_exc v)].
-Proof. exact src_mapErrorToExceptionCode_ok. Qed.
+  call_with src_pure no_fns fuel "mapErrorToExceptionCode" [VN v] = GoLite.Ok [VN (err_to_exc v)].
+Proof. exact (src_mapErrorToExceptionCode_ok no_fns). Qed.
 Print Assumptions c03s_error_map.
 
 Theorem c03s_error_map_model : forall e,
